@@ -18,12 +18,11 @@
 (*   comments, docs/configuration.md): ConfigDir = directory of the config *)
 (*   file actually used, InterfaceDirRelative = InterfaceDir relative to   *)
 (*   ConfigDir, ...                                                        *)
-(* Code-shaped layer: config/config.go:152-173 (which file is used),       *)
-(*   internal/config/config.go:12-31 (upward search), config.go:670-696    *)
-(*   (ConfigDir = filepath.Dir of the `config` PARAMETER,                  *)
-(*   InterfaceDirRelative relative to the WORKING DIRECTORY) -- the two    *)
-(*   deviations of DESIGN section 8 / D14 are the operators ImplConfigDir  *)
-(*   and ImplIfaceDirRel.                                                  *)
+(* Code-shaped layer: config/config.go:152-175 (which file is used: flag,  *)
+(*   then MOCKERY_CONFIG, then search), internal/config/config.go:12-31    *)
+(*   (upward search), config.go:224-230 and 678-693 (ConfigDir and         *)
+(*   InterfaceDirRelative from the absolute path of the file in use --     *)
+(*   defect D14 of DESIGN section 8 was repaired by commit 77bca2b).       *)
 (***************************************************************************)
 EXTENDS Naturals, Sequences, FiniteSets, TLC
 
@@ -71,18 +70,28 @@ SrcFile    == "svc.go"                                   \* every package declar
 (* Layouts.  mode: how mockery learns about the config file.               *)
 (*   search_yml / search_yaml : no flag, no env; a file .mockery.yml /      *)
 (*        .mockery.yaml lies in cfgdir, an ancestor-or-self of cwd          *)
+(*   search_both              : .mockery.yaml AND .mockery.yml in cfgdir    *)
 (*   flag_rel / flag_abs      : --config <path>, relative to cwd / absolute *)
 (*   env_rel / env_abs        : MOCKERY_CONFIG=<path>                       *)
+(*   flagenv_rel / flagenv_abs: --config <path> AND MOCKERY_CONFIG=<other>  *)
 (* decoy: a second, different config file that must NOT be used:           *)
 (*   search: .mockery.yml in a strict ancestor of cfgdir (nearest wins);    *)
-(*   explicit: .mockery.yml in cwd (explicit wins over search).             *)
-SearchModes   == {"search_yml", "search_yaml"}
-ExplicitModes == {"flag_rel", "flag_abs", "env_rel", "env_abs"}
+(*   search_both: the .mockery.yml next to the .mockery.yaml (the code      *)
+(*        looks for .yaml first; the documentation is silent, so the        *)
+(*        contract accepts either file, used consistently);                 *)
+(*   flag / env: .mockery.yml in cwd (explicit wins over search);           *)
+(*   flagenv: the file MOCKERY_CONFIG names (command line wins, docs        *)
+(*        "Config sources").                                                *)
+SearchModes   == {"search_yml", "search_yaml", "search_both"}
+FlagEnvModes  == {"flagenv_rel", "flagenv_abs"}
+ExplicitModes == {"flag_rel", "flag_abs", "env_rel", "env_abs"} \cup FlagEnvModes
+RelModes      == {"flag_rel", "env_rel", "flagenv_rel"}
 Modes         == SearchModes \cup ExplicitModes
 
 CfgFileName(m) == CASE m = "search_yml" -> ".mockery.yml"
-                    [] m = "search_yaml" -> ".mockery.yaml"
+                    [] m \in {"search_yaml", "search_both"} -> ".mockery.yaml"
                     [] OTHER -> "cfg.yml"
+DecoyName(m)   == IF m \in FlagEnvModes THEN "envcfg.yml" ELSE ".mockery.yml"
 
 NoDecoy == <<"-">>
 
@@ -91,36 +100,44 @@ Layouts ==
       c \in ModDirs, m \in Modes, g \in Dirs, y \in Dirs \cup {NoDecoy}}
 
 WellFormed(l) ==
-  /\ l.mode \in SearchModes => /\ l.cfgdir \in Ancestors(l.cwd)
-                               /\ l.decoy = NoDecoy \/ (l.decoy \in Ancestors(l.cfgdir) /\ l.decoy # l.cfgdir)
-  /\ l.mode \in ExplicitModes => l.decoy \in {NoDecoy, l.cwd}
+  /\ l.mode \in SearchModes => l.cfgdir \in Ancestors(l.cwd)
+  /\ l.mode \in {"search_yml", "search_yaml"} =>
+        l.decoy = NoDecoy \/ (l.decoy \in Ancestors(l.cfgdir) /\ l.decoy # l.cfgdir)
+  /\ l.mode = "search_both" => l.decoy = l.cfgdir
+  /\ l.mode \in ExplicitModes \ FlagEnvModes => l.decoy \in {NoDecoy, l.cwd}
+  /\ l.mode \in FlagEnvModes => l.decoy \in {l.cwd, l.cfgdir, << >>}
 
 AllLayouts == {l \in Layouts : WellFormed(l)}
 
 \* the config files that exist in the world: <<directory, file name, role>>
 CfgFiles(l) == {<<l.cfgdir, CfgFileName(l.mode), "real">>}
-               \cup (IF l.decoy = NoDecoy THEN {} ELSE {<<l.decoy, ".mockery.yml", "decoy">>})
+               \cup (IF l.decoy = NoDecoy THEN {} ELSE {<<l.decoy, DecoyName(l.mode), "decoy">>})
 
-\* what is passed on the command line / in the environment ("" = nothing)
+\* what is passed on the command line or, in the env modes, in MOCKERY_CONFIG ("" = nothing)
 ConfigParam(l) ==
   CASE l.mode \in SearchModes -> ""
-    [] l.mode \in {"flag_rel", "env_rel"} ->
+    [] l.mode \in RelModes ->
          IF RelStr(l.cwd, l.cfgdir) = "." THEN CfgFileName(l.mode)
          ELSE RelStr(l.cwd, l.cfgdir) \o "/" \o CfgFileName(l.mode)
     [] OTHER -> Abs(l.cfgdir) \o "/" \o CfgFileName(l.mode)
+\* flagenv modes: what MOCKERY_CONFIG holds next to the --config flag
+EnvParam(l) == IF l.mode \in FlagEnvModes THEN Abs(l.decoy) \o "/" \o DecoyName(l.mode) ELSE ""
 
 -----------------------------------------------------------------------------
 (* Contract: which file is the configuration, and the documented bindings *)
 
+SearchNames == {".mockery.yml", ".mockery.yaml"}
 \* upward search: the nearest ancestor-or-self of cwd that holds a config file
 SearchHit(l) ==
-  LET holders == {d \in Ancestors(l.cwd) : \E f \in CfgFiles(l) : f[1] = d /\ f[2] \in {".mockery.yml", ".mockery.yaml"}}
+  LET holders == {d \in Ancestors(l.cwd) : \E f \in CfgFiles(l) : f[1] = d /\ f[2] \in SearchNames}
   IN  CHOOSE d \in holders : \A e \in holders : Len(e) <= Len(d)
 
+\* command line before environment before search (docs/configuration.md, Config sources)
 ConfigDirUsed(l) == IF l.mode \in ExplicitModes THEN l.cfgdir ELSE SearchHit(l)
-RoleUsed(l) == LET d == ConfigDirUsed(l) IN
-               IF l.mode \in ExplicitModes THEN "real"
-               ELSE (CHOOSE f \in CfgFiles(l) : f[1] = d)[3]
+\* the files the contract allows to be THE configuration (roles)
+RolesAllowed(l) == IF l.mode \in ExplicitModes THEN {"real"}
+                   ELSE {f[3] : f \in {g \in CfgFiles(l) : g[1] = SearchHit(l) /\ g[2] \in SearchNames}}
+DecoyMayWin(l)  == "decoy" \in RolesAllowed(l)
 
 DocConfigDir(l)       == Abs(ConfigDirUsed(l))
 DocIfaceDir(d)        == Abs(d)
@@ -128,30 +145,28 @@ DocIfaceDirRel(l, d)  == IF IsPrefix(ConfigDirUsed(l), d) THEN RelStr(ConfigDirU
 DocIfaceFile(d)       == Abs(d) \o "/" \o SrcFile
 
 -----------------------------------------------------------------------------
-(* Code-shaped: config.go:686 ConfigDir = filepath.Dir of c.ConfigFile -- the `config` parameter, which is
-   empty when the file was found by searching; config.go:670-682 InterfaceDirRelative is computed against
-   os.Getwd() and falls back to "." when the interface is not below it. *)
-GoDirOfParam(l) ==
-  CASE l.mode \in SearchModes -> "."                                          \* filepath.Dir("") = "."
-    [] l.mode \in {"flag_rel", "env_rel"} -> RelStr(l.cwd, l.cfgdir)           \* Dir("x/cfg.yml") = "x", Dir("cfg.yml") = "."
-    [] OTHER -> Abs(l.cfgdir)
+(* Code-shaped (after fix 77bca2b and df637ce):
+   config.go:152-175  the file in use = --config, else MOCKERY_CONFIG, else the upward search of
+                      internal/config/config.go:12-31, which tries .mockery.yaml before .mockery.yml in each directory;
+   config.go:224-230  the root config's `config` parameter is overwritten with the ABSOLUTE path of that file,
+   config.go:693      ConfigDir = filepath.Dir of it,
+   config.go:678-686  InterfaceDirRelative = InterfaceDir relative to that directory, "." when not below it. *)
+ImplRoleUsed(l) ==
+  IF l.mode \in ExplicitModes THEN "real"
+  ELSE LET fs == {g \in CfgFiles(l) : g[1] = SearchHit(l) /\ g[2] \in SearchNames} IN
+       IF \E g \in fs : g[2] = ".mockery.yaml" THEN (CHOOSE g \in fs : g[2] = ".mockery.yaml")[3]
+       ELSE (CHOOSE g \in fs : TRUE)[3]
 
-ImplConfigDir(l)      == GoDirOfParam(l)
-ImplIfaceDirRel(l, d) == IF IsPrefix(l.cwd, d) THEN RelStr(l.cwd, d) ELSE "."
+ImplConfigDirDenotes(l) == ConfigDirUsed(l)
+ImplConfigDir(l)        == Abs(ImplConfigDirDenotes(l))
+ImplIfaceDirRel(l, d)   == IF IsPrefix(ImplConfigDirDenotes(l), d) THEN RelStr(ImplConfigDirDenotes(l), d) ELSE "."
 
-\* directory a ConfigDir string denotes: relative strings are relative to the working directory
-ImplConfigDirDenotes(l) ==
-  CASE l.mode \in SearchModes -> l.cwd
-    [] OTHER -> l.cfgdir
-
-\* D14 classes: where the code-shaped binding does not denote the documented one
+\* where the code-shaped binding does not denote the documented one (none since 77bca2b; kept so that the
+\* exported cases say so and a regression shows up as an unexpected, not as a predicted, deviation)
 DevConfigDir(l)      == ImplConfigDirDenotes(l) # ConfigDirUsed(l)
 DevIfaceDirRel(l, d) == DocIfaceDirRel(l, d) # UNSPEC /\ ImplIfaceDirRel(l, d) # DocIfaceDirRel(l, d)
 
-\* what TLC checks about this module (cfg: INVARIANT on the MC state that ranges over AllLayouts)
-ConfigDirDeviatesOnlyWhenFoundAbove(l) ==
-  DevConfigDir(l) <=> (l.mode \in SearchModes /\ l.cfgdir # l.cwd)
-IfaceDirRelDeviatesOnlyWhenCwdIsNotConfigDir(l, d) ==
-  DevIfaceDirRel(l, d) => ConfigDirUsed(l) # l.cwd
-RealConfigIsUsed(l) == RoleUsed(l) = "real"
+\* what TLC checks about this module (ASSUMEs of TemplateResolveMC over AllLayouts)
+NoKnownDeviation(l) == ~DevConfigDir(l) /\ \A d \in ModDirs : ~DevIfaceDirRel(l, d)
+RealConfigIsUsed(l) == ImplRoleUsed(l) = "real" /\ "real" \in RolesAllowed(l)
 =============================================================================
